@@ -2,7 +2,7 @@
 from vlib import evalcorr, exprs, runner
 from vlib.runner import finish, prepare
 
-GENS = ["Gen_logic", "Gen_ranges", "Gen_rccb"]   # Gen_rccb: the transformer callbacks as executed by the translator (Proofs/C04_gen.v)
+GENS = ["Gen_logic", "Gen_ranges", "Gen_rccb", "Gen_rctail"]   # Gen_rccb: the transformer callbacks as executed by the translator (Proofs/C04_gen.v)
 
 
 def scope(ctx):
@@ -10,7 +10,7 @@ def scope(ctx):
 
 
 def common(ctx, props_target, extra_targets=(), extra_gens=()):
-    built = prepare(ctx, GENS + list(extra_gens), [props_target, "Corr/Eval.vo", "Proofs/C04_gen.vo", *extra_targets])
+    built = prepare(ctx, GENS + list(extra_gens), [props_target, "Corr/Eval.vo", "Proofs/C04_gen.vo", "Proofs/C04_tail.vo", *extra_targets])
     mx, nr, ml = scope(ctx)
     cases = evalcorr.corpus(ctx, mx, nr, ml)
     return built, cases
